@@ -447,7 +447,7 @@ Section Breach.
   (* ---------------------------------------------------------------------------------------- *)
   (* proof outlines as predicates on residual programs *)
 
-  Fixpoint acts_rel (R : tower -> tower -> Prop) (q : prog out) : Prop :=
+  Fixpoint acts_rel {A} (R : tower -> tower -> Prop) (q : prog A) : Prop :=
     match q with
     | Ret _ => True
     | Acq _ k | Rel _ k => acts_rel R k
@@ -463,10 +463,10 @@ Section Breach.
     - intros bb. eapply IH. apply H2.
   Qed.
 
-  Definition keeps (P : tower -> Prop) : prog out -> Prop := acts_rel (fun t t' => P t -> P t').
+  Definition keeps {A} (P : tower -> Prop) : prog A -> Prop := acts_rel (fun t t' => P t -> P t').
 
   (* q will establish P by one of its actions (I holds whenever it acts) and keep it afterwards *)
-  Fixpoint estab (I P : tower -> Prop) (q : prog out) : Prop :=
+  Fixpoint estab {A} (I P : tower -> Prop) (q : prog A) : Prop :=
     match q with
     | Ret _ => False
     | Acq _ k | Rel _ k => estab I P k
@@ -476,6 +476,20 @@ Section Breach.
                                     end
     end.
   Definition will (I P : tower -> Prop) (q : prog out) (t : tower) : Prop := estab I P q \/ (P t /\ keeps P q).
+
+  Lemma keeps_bind {A C} (P : tower -> Prop) (p : prog A) (g : A -> prog C) :
+    keeps P p -> (forall a, keeps P (g a)) -> keeps P (pbind p g).
+  Proof.
+    unfold keeps. induction p as [a|l k IH|l k IH|B f k IH]; intros Hp Hg; cbn [pbind acts_rel] in *; auto.
+    destruct Hp as [H1 H2]. split; [exact H1|intros bb; apply IH; [apply H2|exact Hg]].
+  Qed.
+  Lemma estab_bind {A C} (I P : tower -> Prop) (p : prog A) (g : A -> prog C) :
+    estab I P p -> (forall a, keeps P (g a)) -> estab I P (pbind p g).
+  Proof.
+    induction p as [a|l k IH|l k IH|B f k IH]; intros Hp Hg; cbn [pbind estab] in *; auto; [destruct Hp|].
+    intros t Ht. specialize (Hp t Ht). destruct (f t) as [bb t'|]; [|exact Hp].
+    destruct Hp as [[HP Hk]|He]; [left; split; [exact HP|apply keeps_bind; assumption]|right; apply IH; assumption].
+  Qed.
 
   Lemma will_acq I P l k t : will I P (Acq l k) t -> will I P k t.
   Proof. intros H. exact H. Qed.
@@ -523,7 +537,7 @@ Section Breach.
     | Ret o => match o with OAddRes (AddOk _ _ _ _) => False | _ => True end
     | Acq l k => if N.eqb l L_cache then alook k else apre k
     | Rel _ k => apre k
-    | Act B f k => forall bb, apre (k bb)
+    | Act B f k => forall t bb t', f t = Ok bb t' -> apre (k bb)
     end.
 
   (* ---- the block ---- *)
@@ -577,15 +591,17 @@ Section Breach.
       excl c /\ memo_ok (cf_tower c) /\ acts_rel RA qa /\ acts_rel RC qc /\
       Jph qa ha qc hc (cf_tower c).
 
+  Definition is_abort (r : tout) : Prop :=
+    match r with TPoisoned _ => True | TOut (OAbort _) => True | TOut _ => False end.
   Definition aborted (c : conf) : Prop :=
-    exists i th r, nth_error (cf_threads c) i = Some th /\ ct_st th = Ended r.
+    exists i th r, nth_error (cf_threads c) i = Some th /\ ct_st th = Ended r /\ is_abort r.
 
   Lemma aborted_step c i c' : aborted c -> step_thread c i = Some c' -> aborted c'.
   Proof.
-    intros [j [th [r [Hn He]]]] Hs.
+    intros [j [th [r [Hn [He Hab]]]]] Hs.
     destruct (step_thread_cases c i c' Hs) as [thi [p [Hni [Hst Hc]]]].
     assert (Hij : i <> j) by (intros ->; rewrite Hn in Hni; inversion Hni; subst; congruence).
-    exists j, th, r. split; [|exact He].
+    exists j, th, r. split; [|split; [exact He|exact Hab]].
     destruct Hc as [[l [k [_ [_ [_ ->]]]]]|[[l [k [_ [_ [_ ->]]]]]|[[l [k [_ ->]]]|[[B [f [k [bb [t' [_ [_ ->]]]]]]]|[B [f [k [s [t' [_ [_ ->]]]]]]]]]]];
       cbn [die cf_threads]; rewrite nth_error_set_nth_neq by exact Hij; exact Hn.
   Qed.
@@ -657,14 +673,14 @@ Section Breach.
     destruct H as [[Hc [Hw Ha]]|[[Hc [Hh [Hw Ha]]]|[Hc [Hl Ha]]]].
     - left. split; [exact Hc|]. split; [congruence|].
       destruct Ha as [Ha|[[Ha Hh]|[Ha|Ha]]].
-      + left. apply Ha.
+      + left. eapply Ha. exact E.
       + destruct (Hlook Ha Hh) as [-> [[_ X]|[_ X]]]; [right; right; left; exact X|right; right; right; exact X].
       + right. right. left. eapply will_act; eauto.
       + right. right. right. apply H4. exact Ha.
     - right. left. split; [exact Hc|]. split; [exact Hh|]. split; [congruence|].
-      destruct Ha as [Ha|[Ha|[[o Ho] _]]]; [left; apply Ha|right; left; eapply will_act; eauto|discriminate].
+      destruct Ha as [Ha|[Ha|[[o Ho] _]]]; [left; eapply Ha; exact E|right; left; eapply will_act; eauto|discriminate].
     - right. right. split; [exact Hc|]. split; [apply Hhl; exact Hl|].
-      destruct Ha as [Ha|[[Ha Hh]|[Ha|[[o Ho] _]]]]; [left; apply Ha| |right; right; left; eapply will_act; eauto|discriminate].
+      destruct Ha as [Ha|[[Ha Hh]|[Ha|[[o Ho] _]]]]; [left; eapply Ha; exact E| |right; right; left; eapply will_act; eauto|discriminate].
       destruct (Hlook Ha Hh) as [-> [[_ X]|[Hn _]]]; [right; right; left; exact X|contradiction].
   Qed.
 
@@ -737,7 +753,7 @@ Section Breach.
       + left. exists k, (l :: ha), (l :: tra), qc, hc, trc. rewrite Hth. cbn [set_nth cf_threads cf_tower].
         split; [reflexivity|]. split; [exact Hex'|]. split; [exact Hm|]. split; [exact HRA|]. split; [exact HRC|].
         apply J_A_acq; [exact Hph|]. apply (Hheld l Hfree).
-      + right. exists 0%nat. eexists. eexists. unfold die. rewrite Hth. cbn [cf_threads set_nth nth_error]. split; reflexivity.
+      + right. exists 0%nat. eexists. eexists. unfold die. rewrite Hth. cbn [cf_threads set_nth nth_error]. split; [reflexivity|split; [reflexivity|exact I]].
       + left. exists k, (remove_lock l ha), tra, qc, hc, trc. rewrite Hth. cbn [set_nth cf_threads cf_tower].
         split; [reflexivity|]. split; [exact Hex'|]. split; [exact Hm|]. split; [exact HRA|]. split; [exact HRC|].
         apply J_A_rel. exact Hph.
@@ -745,7 +761,7 @@ Section Breach.
         left. exists (k bb), ha, tra, qc, hc, trc. rewrite Hth. cbn [set_nth cf_threads cf_tower].
         split; [reflexivity|]. split; [exact Hex'|]. split; [apply HR; exact Hm|]. split; [apply HR2|]. split; [exact HRC|].
         eapply J_A_act; eauto.
-      + right. exists 0%nat. eexists. eexists. unfold die. rewrite Hth. cbn [cf_threads set_nth nth_error]. split; reflexivity.
+      + right. exists 0%nat. eexists. eexists. unfold die. rewrite Hth. cbn [cf_threads set_nth nth_error]. split; [reflexivity|split; [reflexivity|exact I]].
     - (* the block moves *)
       inversion Hn; subst th. cbn [ct_st ct_held ct_trace] in *. inversion Hst; subst p. clear Hst Hn.
       destruct Hc as [[l [k [-> [Hfree [_ ->]]]]]|[[l [k [-> [_ [_ ->]]]]]|[[l [k [-> ->]]]|[[B [f [k [bb [t' [-> [Hf ->]]]]]]]|[B [f [k [s [t' [-> [Hf ->]]]]]]]]]]].
@@ -753,7 +769,7 @@ Section Breach.
       + left. exists qa, ha, tra, k, (l :: hc), (l :: trc). rewrite Hth. cbn [set_nth cf_threads cf_tower].
         split; [reflexivity|]. split; [exact Hex'|]. split; [exact Hm|]. split; [exact HRA|]. split; [exact HRC|].
         apply J_C_acq; [exact Hph|]. apply (Hheld l Hfree).
-      + right. exists 1%nat. eexists. eexists. unfold die. rewrite Hth. cbn [cf_threads set_nth nth_error]. split; reflexivity.
+      + right. exists 1%nat. eexists. eexists. unfold die. rewrite Hth. cbn [cf_threads set_nth nth_error]. split; [reflexivity|split; [reflexivity|exact I]].
       + left. exists qa, ha, tra, k, (remove_lock l hc), trc. rewrite Hth. cbn [set_nth cf_threads cf_tower].
         split; [reflexivity|]. split; [exact Hex'|]. split; [exact Hm|]. split; [exact HRA|]. split; [exact HRC|].
         apply J_C_rel. exact Hph.
@@ -762,7 +778,7 @@ Section Breach.
         left. exists qa, ha, tra, (k bb), hc, trc. rewrite Hth. cbn [set_nth cf_threads cf_tower].
         split; [reflexivity|]. split; [exact Hex'|]. split; [exact Hm'|]. split; [exact HRA|]. split; [apply HR2|].
         eapply J_C_act; eauto.
-      + right. exists 1%nat. eexists. eexists. unfold die. rewrite Hth. cbn [cf_threads set_nth nth_error]. split; reflexivity.
+      + right. exists 1%nat. eexists. eexists. unfold die. rewrite Hth. cbn [cf_threads set_nth nth_error]. split; [reflexivity|split; [reflexivity|exact I]].
   Qed.
 
   Lemma J_run c sched : J c \/ aborted c -> J (run_config c sched) \/ aborted (run_config c sched).
@@ -785,5 +801,229 @@ Section Breach.
     subst qa qc. destruct r; try exact I.
     destruct Hph as [[[] _]|[[[] _]|[_ [_ Ha]]]].
     destruct Ha as [[]|[[[] _]|[Ha|[_ Hs]]]]; [eapply will_ret; eauto|exact Hs].
+  Qed.
+
+  (* ---------------------------------------------------------------------------------------- *)
+  (* the two thread programs satisfy their outlines *)
+
+  Context (delay sig : N).
+  Definition PA : prog out := add_p sc (Some u) loc b delay sig.
+  (* = prog_of_op (OConnect hash txs) for a tower at height h - 1 *)
+  Definition PC : prog out := (connect_p le sc hash txs h ;;; Ret tt) ;;; Ret OBlockRes.
+
+  (* static guarantees, from the structural theorem *)
+  Definition G_A : list lock -> tower -> tower -> Prop := fun _ t t' => same_cache t t' /\ (memo_ok t -> memo_ok t').
+
+  Lemma G_A_common : OblCommon G_A sc.
+  Proof.
+    constructor; unfold G_A, same_cache; intros.
+    - tauto.
+    - destruct (touches_delete t us refund) as [_ [_ [_ [E1 [_ [_ [E2 _]]]]]]]. split; [exact E1|intros Hm; eapply memo_same; eauto].
+    - unfold in_mempool. cbn [snd]. split; [reflexivity|intros Hm; eapply memo_same; [reflexivity|exact Hm]].
+    - split; [unfold send_transaction; destruct (aget (car_memo t) tx); reflexivity|apply memo_send].
+    - split; [|intros Hm; eapply memo_same; [apply add_tracker_memo|exact Hm]].
+      unfold r_add_tracker. destruct s; try reflexivity; destruct (find_trk (db_trks t) uuid0); try reflexivity; destruct (find_app (db_apps t) uuid0); reflexivity.
+  Qed.
+
+  Lemma G_A_api : OblApi G_A.
+  Proof.
+    constructor; unfold G_A, same_cache; intros; (split; [|intros Hm; eapply memo_same; [|exact Hm]]); try reflexivity.
+    - unfold w_store_appointment. destruct (find_app (db_apps t) (app_uuid a)); [reflexivity|]. destruct (amem (db_users t) (a_user a)); reflexivity.
+    - unfold w_store_appointment. destruct (find_app (db_apps t) (app_uuid a)); [reflexivity|]. destruct (amem (db_users t) (a_user a)); reflexivity.
+  Qed.
+
+  Lemma PA_guar : acts_rel RA PA.
+  Proof.
+    apply (guark_acts_rel G_A RA PA (fun _ _ _ H => H) [] ktrue).
+    apply (g_add G_A sc G_A_common G_A_api (Some u) loc b delay sig ktrue). intros; exact I.
+  Qed.
+
+  Lemma G_keep_cache : OblCache G_keep.
+  Proof.
+    intros hh t c _. unfold G_keep. split; [intros Hq; eapply good_same; [split; reflexivity|exact Hq]|].
+    split; intros Hq; [eapply rowA_same; [reflexivity|exact Hq]|eapply memo_same; [reflexivity|exact Hq]].
+  Qed.
+
+  Lemma PC_guar : acts_rel RC PC.
+  Proof.
+    apply (guark_acts_rel G_keep RC PC (fun _ _ _ H => H) [] ktrue).
+    unfold PC. apply guark_bind. apply guark_bind. apply (g_connect G_keep le sc G_keep_common G_keep_chain G_keep_cache hash txs h). exact I.
+  Qed.
+
+  (* after its cache section the block never touches the cache again *)
+  Definition G_sc : list lock -> tower -> tower -> Prop := fun _ t t' => same_cache t t'.
+  Lemma G_sc_common : OblCommon G_sc sc.
+  Proof.
+    constructor; unfold G_sc, same_cache; intros; try reflexivity.
+    - destruct (touches_delete t us refund) as [_ [_ [_ [E1 _]]]]. exact E1.
+    - unfold send_transaction. destruct (aget (car_memo t) tx); reflexivity.
+    - unfold r_add_tracker. destruct s; try reflexivity; destruct (find_trk (db_trks t) uuid0); try reflexivity; destruct (find_app (db_apps t) uuid0); reflexivity.
+  Qed.
+  Lemma G_sc_chain : OblChain G_sc.
+  Proof.
+    constructor; unfold G_sc, same_cache; intros; try reflexivity.
+    destruct (touches_check_conf le0 txs0 x (db_trks t) t []) as [_ [_ [_ [_ [_ [_ [E _]]]]]]]. exact E.
+  Qed.
+
+  Definition REST : prog out := ((w_rest_p sc txs h ;;; (r_connect_p le sc hash txs h ;;; Ret tt)) ;;; Ret tt) ;;; Ret OBlockRes.
+
+  Lemma REST_same_cache : acts_rel same_cache REST.
+  Proof.
+    apply (guark_acts_rel G_sc same_cache REST (fun _ _ _ H => H) [] ktrue).
+    unfold REST. apply guark_bind. apply guark_bind. apply guark_bind. apply (g_w_rest G_sc sc G_sc_common G_sc_chain).
+    apply guark_bind. apply (g_r_connect G_sc le sc G_sc_common G_sc_chain). exact I.
+  Qed.
+
+  Lemma REST_solo t : rowA t -> memo_ok t -> solo REST t.
+  Proof.
+    intros Hr Hm. unfold solo, REST. rewrite exec_bind, exec_bind, exec_bind.
+    pose proof (w_rest_outcome t h Hr Hm) as H1.
+    destruct (exec (w_rest_p sc txs h) t) as [[] t1|s t1]; [|exact I].
+    rewrite exec_bind.
+    pose proof (r_connect_keeps_ge hash h t1 H1) as H2.
+    destruct (exec (r_connect_p le sc hash txs h) t1) as [[] t2|s t2]; [|exact I].
+    cbn [exec]. exact H2.
+  Qed.
+
+  Ltac eqb_norm :=
+    repeat match goal with
+           | |- context [N.eqb ?a ?b] => let v := eval vm_compute in (N.eqb a b) in change (N.eqb a b) with v
+           end.
+
+  Lemma connect_outline : cpre PC.
+  Proof.
+    unfold PC, connect_p. change Consts.LISTENER_ORDER with [0%Z; 1%Z; 2%Z].
+    cbn [run_listeners_p listener_connected_p Z.eqb]. unfold gk_connect_p, w_connect_p, w_cache_p.
+    cbn [pbind acq rel act rd wr cpre]. eqb_norm. cbv iota.
+    split; [intros t bb t' E; unfold find_outdated in E; destruct (outdated_users _ _ _); inversion E; reflexivity|].
+    intros outd. cbn [cpre].
+    assert (Htail : cpre (Act unit (fun t => Ok tt (set_gk_height t h))
+                            (fun _ => Acq L_cache (Act unit (update_cache (cache_block hash txs)) (fun _ => Rel L_cache REST))))).
+    { cbn [cpre]. eqb_norm. cbv iota. split; [intros t bb t' E; inversion E; reflexivity|]. intros _. cbn [csec].
+      intros t Hw. unfold update_cache. destruct (ti_update (w_cache t) (cache_block hash txs)) as [c|] eqn:Eu; [|exact I].
+      split; [unfold has_loc; cbn [w_cache set_w_cache]; apply Hcache; rewrite <- Hw; exact Eu|].
+      split; [cbn [crel]; split; [reflexivity|apply REST_same_cache]|].
+      intros Hr Hm. apply (solo_rel L_cache). apply REST_solo; assumption. }
+    destruct outd as [|o outd]; cbn [pbind cpre]; eqb_norm; cbv iota.
+    - exact Htail.
+    - split; [intros t bb t' E; inversion E; reflexivity|]. intros _. eqb_norm. cbv iota.
+      split; [intros t bb t' E; inversion E; reflexivity|]. intros _. exact Htail.
+  Qed.
+
+  (* the request's outline *)
+  Ltac astep :=
+    match goal with
+    | |- forall (t : tower) bb (t' : tower), _ = Ok bb t' -> _ =>
+        let E := fresh "E" in intros ? ? ? E;
+        first [ inversion E; subst; clear E | idtac ]
+    | |- apre (match authenticate ?t ?s with _ => _ end) => unfold authenticate; destruct (amem (gk_users t) u)
+    | |- apre (match ?x with _ => _ end) => destruct x
+    | |- apre (if ?x then _ else _) => destruct x
+    | |- apre ?p =>
+        match p with
+        | context [authenticate ?t (Some u)] => unfold authenticate; destruct (amem (gk_users t) u)
+        | context [if amem (gk_users ?t) u then Some u else None] => destruct (amem (gk_users t) u)
+        | context [match ?x with _ => _ end] => destruct x
+        | context [if ?c then _ else _] => destruct c
+        end
+    end.
+  Ltac awalk :=
+    repeat (cbn [apre pbind acq rel act rd wr panic reach_p authenticate_p expired_p has_tracker_p charge_p add_finish fst snd];
+            eqb_norm; cbv iota; try astep).
+
+  (* once the status of the penalty is known (accepted or rejected), the rest of
+     store_triggered_appointment resolves the appointment *)
+  Definition tail_after (d p : N) (s : cstatus) : prog unit :=
+    s' <- ((if status_accepted s then acq L_db ;;; wr (fun t => r_add_tracker t uuid d p s) ;;; rel L_db else Ret tt) ;;;
+           rel L_txindex ;;; rel L_carrier ;;; Ret s) ;;
+    (if status_rejected s' then delete_apps_p [uuid] false else Ret tt).
+
+  Lemma after_status d p s :
+    status_accepted s = true \/ status_rejected s = true -> estab memo_ok ge (tail_after d p s).
+  Proof.
+    intros Hs. unfold tail_after. destruct (status_accepted s) eqn:Ea.
+    - cbn [pbind acq rel wr estab]. intros t _. left. split; [left; apply good_after_add_tracker; exact Ea|].
+      destruct (status_rejected s); cbn; repeat split; auto.
+      intros t1 bb t' E Hg. unfold gk_delete_appointments in E. inversion E; subst.
+      destruct Hg as [Hg|He]; [left; apply good_delete; exact Hg|right; exact He].
+    - destruct Hs as [Hs|Hs]; [discriminate|]. cbn [pbind acq rel]. rewrite Hs. unfold delete_apps_p. cbn [pbind acq rel act estab].
+      intros t _. unfold gk_delete_appointments. left. split; [|cbn; auto].
+      left. apply good_deleted. unfold mem_uuid. cbn [existsb]. rewrite uuid_eqb_refl. reflexivity.
+  Qed.
+
+  Lemma status_cases s : status_accepted s = true \/ status_rejected s = true \/ s = IrrevocablyResolved.
+  Proof. destruct s; cbn; auto. Qed.
+
+  Lemma triggered_resolves a d :
+    app_uuid a = uuid -> a_blob a = b -> estab memo_ok ge (store_triggered_p sc a d).
+  Proof.
+    intros Hu Hb. unfold store_triggered_p. rewrite Hu, Hb.
+    destruct (decrypt b d) as [p|] eqn:Ed.
+    - unfold store_appointment_p, handle_breach_p, reach_p, send_p.
+      cbn [pbind acq rel act rd wr estab]. intros t _. destruct (w_store_appointment t a) as [[] t1|]; [right|exact I].
+      cbn [estab]. intros t2 _. unfold index_lookup.
+      destruct (ti_get (r_index t2) p) as [bh|].
+      + destruct (ti_get_height (r_index t2) bh) as [hh|]; [right|exact I].
+        apply (after_status d p (ConfirmedIn (Z.to_N hh))). left. reflexivity.
+      + right. cbn [pbind estab]. intros t3 _. unfold ask_mempool. destruct (in_mempool sc t3 p) as [inm t4]. destruct inm.
+        * right. apply (after_status d p (InMempoolSince (car_height t4))). left. reflexivity.
+        * right. cbn [pbind estab]. intros t5 Hm5. unfold send_act. destruct (send_transaction sc t5 p) as [s t6] eqn:Es.
+          destruct (status_cases s) as [Hs|[Hs|Hs]].
+          -- right. apply (after_status d p s). left. exact Hs.
+          -- right. apply (after_status d p s). right. exact Hs.
+          -- left. split.
+             ++ right. exists p. split; [eapply decrypt_pay; eauto|]. apply (send_irrev t5 p Hm5). rewrite Es. exact Hs.
+             ++ subst s. cbn. auto.
+    - cbn [pbind acq rel rd estab]. intros t _.
+      destruct (find_app (db_apps t) uuid) eqn:Ef.
+      + right. unfold delete_apps_p. cbn [pbind acq rel act estab]. intros t1 _. unfold gk_delete_appointments.
+        left. split; [|cbn; auto]. left. apply good_deleted. unfold mem_uuid. cbn [existsb]. rewrite uuid_eqb_refl. reflexivity.
+      + left. split; [left; left; exact Ef|cbn; auto].
+  Qed.
+
+  Lemma stored_row a o :
+    app_uuid a = uuid -> a_blob a = b ->
+    estab (fun _ => True) rowA (store_appointment_p a ;;; Rel L_cache (Ret o)) /\
+    amiss (store_appointment_p a ;;; Rel L_cache (Ret o)).
+  Proof.
+    intros Hu Hb. unfold store_appointment_p. cbn [pbind acq rel act estab amiss]. eqb_norm. cbv iota. split.
+    - intros t _. destruct (w_store_appointment t a) as [[] t1|] eqn:Es; [|exact I].
+      left. split; [|cbn; auto]. right. exists a. split; [|exact Hb].
+      rewrite (store_appointment_spec t a t1 Es). cbn [db_apps set_db_apps]. rewrite find_app_store, Hu, uuid_eqb_refl. reflexivity.
+    - split; [reflexivity|]. intros _. eexists. reflexivity.
+  Qed.
+
+  Lemma add_outline : apre PA.
+  Proof.
+    unfold PA, add_p, add_appointment_p, add_pre_p. awalk; try exact I.
+    (* the cache section *)
+    all: unfold cache_section_p; cbn [pbind acq rel rd alook a_loc]; intros tx;
+      exists (ti_get (w_cache tx) loc); (split; [reflexivity|]); split.
+    all: try (intros Hh; unfold has_loc in Hh; destruct (ti_get (w_cache tx) loc) as [d|]; [|contradiction];
+              apply estab_bind; [|intros; exact I]; apply estab_bind; [|intros; exact I];
+              apply estab_bind; [|intros; exact I]; apply triggered_resolves; reflexivity).
+    all: intros Hn; unfold has_loc in Hn; destruct (ti_get (w_cache tx) loc) as [d|]; [exfalso; apply Hn; discriminate|];
+         cbn [pbind]; apply stored_row; reflexivity.
+  Qed.
+
+  Lemma J_init : J (init_config t0 [PA; PC]).
+  Proof.
+    exists PA, [], [], PC, [], []. split; [reflexivity|]. split; [apply excl_init|]. split; [apply memo_ok_init|].
+    split; [apply PA_guar|]. split; [apply PC_guar|]. left. split; [apply connect_outline|]. split; [reflexivity|].
+    left. apply add_outline.
+  Qed.
+
+  (* THE theorem: for every schedule of  add_appointment || block connected  in which both return *)
+  Theorem accepted_then_watched_or_gone sched tf r :
+    run_sched t0 [PA; PC] sched = (tf, [Some (TOut (OAddRes r)); Some (TOut OBlockRes)]) ->
+    match r with AddOk _ _ _ _ => ge tf | _ => True end.
+  Proof.
+    unfold run_sched. intros H. inversion H as [[Ht Hres]]. clear H.
+    destruct (J_run (init_config t0 [PA; PC]) sched (or_introl J_init)) as [HJ|[i [th [x [Hn [He Hab]]]]]].
+    - exact (J_final _ r OBlockRes HJ Hres).
+    - exfalso.
+      assert (Hx : nth_error (map thread_result (cf_threads (run_config (init_config t0 [PA; PC]) sched))) i = Some (Some x)).
+      { rewrite nth_error_map, Hn. cbn [option_map]. unfold thread_result. rewrite He. reflexivity. }
+      rewrite Hres in Hx. destruct i as [|[|[|i]]]; cbn [nth_error] in Hx; inversion Hx; subst x; exact Hab.
   Qed.
 End Breach.
